@@ -776,6 +776,11 @@ pub fn apply_edit(t: &Template, node: &mut Node, op: &EditOp) {
             node.sim.write_manifest(&t.manifest_name);
             if let Some(r) = t.variant_reports.get(i) {
                 for (k, v) in r {
+                    // (a command that writes no depfile at all - DepfileGone in
+                    // the same edit set - keeps reading nothing)
+                    if node.sim.raw_depfile.get(k).map(|x| x.as_str()) == Some("<none>") {
+                        continue;
+                    }
                     if node.sim.reports.get(k) != Some(v) {
                         node.sim.reports.insert(k.clone(), v.clone());
                         // the source was edited along with the manifest
